@@ -19,6 +19,7 @@ RULE = (
     "1e-12; Rosenblatt image of joint samples uniform per component, per conditioning bin and jointly (Naaman bound); shape; bitwise "
     "reproducibility for equal seeds / equally seeded Generators; different seeds differ. Non-trivial = n >= 1000 (a statistical "
     "comparison was made); distinct = (family or spec signature, n, seed kind)."
+    ' Also: constant dependence functions returning Python float / 0-d array / numpy scalar with every dependent parameter constant; unit-rescaled joint cases; transformed models fresh and after cache use + parameter change.'
 )
 ASSUMPTIONS = [
     "DKW-Massart and Naaman inequalities at error probability 1e-12 per comparison (number of comparisons is in the evidence)",
